@@ -279,12 +279,13 @@ def _completed_loop(c, n):
                 cur.target, ast.Tuple) else []
             if len(names) == 3 and names[1] == 'message' and names[
                     2] == 'is_completed':
-                # `if completed_only and not is_completed: continue`
-                for s in cur.body:
-                    if isinstance(s, ast.If) and c.find(
-                            s.test, 'completed_only and not is_completed') \
-                            and isinstance(s.body[0], ast.Continue):
-                        return True
+                # incomplete outputs are skipped in completed-only mode
+                # (`if completed_only and not is_completed: continue`, or
+                # the rest of the iteration under the negated test): the
+                # site is reached only with `not completed_only or
+                # is_completed`
+                from sa.pat import AnyOf
+                return c.holds(n, AnyOf('!completed_only', 'is_completed'))
     return False
 
 
